@@ -186,6 +186,57 @@ def e2e(arg):
     return F, st
 
 
+# ------------------------------------------------------------------ names shared by several registries
+
+def xreg_arm(F, tot):
+    """The same name may exist in more than one registry ('noop' in all three): looking it up in one registry must not
+    influence what it means in another.  All orders of (filter, output, data source) lookups of each shared name are run
+    through the real lookup-by-name functions of the default build; results and every sink are checked."""
+    import itertools
+    bld = vbuild.build("plain")
+    exe = vbuild.build_vitro(bld, asan=False)
+    work = mkwork("c13x")
+    try:
+        s = Script()
+        orders = list(itertools.permutations(["filter", "output", "ds"])) + [("filter", "filter", "output"), ("ds", "output", "output"), ("output", "filter", "ds")]
+        for oi, order in enumerate(orders):
+            s.fork(oi + 1)
+            s.raw("vinit 0 %s %s %s" % (Script.elem(b"/bin/x"), Script.vec([b"x"]), Script.vec([b"E=1"])))
+            for k, what in enumerate(order):
+                cid = (oi + 1) * 10 + k
+                if what == "filter":
+                    s.raw("vfilter %d %s %s" % (cid, Script.elem(b"noop"), Script.elem(b"")))
+                elif what == "output":
+                    s.raw("voutput %d %s %s %s" % (cid, Script.elem(b"noop"), Script.elem(b"XREG-MESSAGE"), Script.elem(b"")))
+                else:
+                    s.raw("vds %d %s %s 300" % (cid, Script.elem(b"noop"), Script.elem(b"")))
+            s.raw("vcleanup 0")
+            s.endfork()
+        res = run_vdrive(bld, s.text(), work, exe=exe, preload=[os.path.join(HBIN, "libvrec.so")], timeout=120)
+        for oi, order in enumerate(orders):
+            wit = dict(lookup_order=order)
+            ch = [e for e in res.events if e["ev"] == "CHILD" and e.get("tag") == oi + 1]
+            if not ch:
+                raise Harness("no CHILD event in the cross-registry arm")
+            tot["xreg_orders"] = tot.get("xreg_orders", 0) + 1
+            if ch[0]["signal"] or ch[0]["status"]:
+                F.violation("C13:xreg:crash", "looking up the name 'noop' in the order %s crashed (signal %d)" % (order, ch[0]["signal"]), wit)
+                continue
+            gained = {k: v for k, v in ch[0].get("sinks", {}).items() if k != "_" and v not in ("", [])}
+            if gained:
+                F.violation("C13:xreg:noop-output-wrote-something", "after lookups in the order %s the 'noop' output wrote to %s: another implementation answered to the name" % (order, sorted(gained)), dict(wit, sinks=gained))
+            for k, what in enumerate(order):
+                v = [e for e in res.events if e["ev"] == "V" and e["id"] == (oi + 1) * 10 + k]
+                if not v:
+                    F.violation("C13:xreg:no-result", "lookup %d (%s) of order %s never returned" % (k, what, order), wit)
+                    break
+                want = {"filter": 1, "output": 0, "ds": 0}[what]
+                if v[0]["ret"] != want or (what == "ds" and v[0]["out"] != ""):
+                    F.violation("C13:xreg:wrong-result:%s" % what, "'noop' looked up as %s in the order %s returned %d %r (expected %d)" % (what, order, v[0]["ret"], v[0].get("out"), want), wit)
+    finally:
+        rmwork(work)
+
+
 def main():
     t0 = time.time()
     tr = tier()
@@ -238,6 +289,7 @@ def main():
         merge_findings(F, f)
         for k, v in st.items():
             tot[k] = tot.get(k, 0) + v
+    xreg_arm(F, tot)
     if (tot.get("bindings", 0) == 0 or tot.get("e2e_values", 0) == 0) and F.n_unlisted() == 0:
         raise Harness("observed too little: %s" % tot)
     rc = F.report()
